@@ -316,7 +316,7 @@ where
 
 fn value_of<'a, T>(src: &'a Src, mk_owned: &dyn Fn(&'a str) -> Option<T>, mk_borrowed: &dyn Fn(&'a str) -> Option<T>, parse: &dyn Fn(&str) -> Option<GenericPurl<T>>) -> Option<(GenericPurl<T>, String)>
 where
-    T: PurlShape + Clone,
+    T: PurlShape + Clone + crate::exec::Reparse,
     T::Error: Debug,
 {
     let p = match src {
